@@ -36,7 +36,7 @@ def selections(kmax=3):
     return out
 
 
-def mk(axis_ids, inv_ids, which, md_ax, md_inv, axis):
+def mk(axis_ids, inv_ids, which, md_ax, md_inv, axis, layout='csr'):
     from biom import Table
     base = [1.0, 0.25, 100.0][which]
     tag = 'ABC'[which]
@@ -52,6 +52,8 @@ def mk(axis_ids, inv_ids, which, md_ax, md_inv, axis):
     cp = (lambda z: None if z is None else [dict(e) for e in z])
     t = Table(np.array(D, float).reshape(len(o), len(s)), list(o), list(s), cp(omd), cp(smd),
               type='OTU table' if which == 0 else None)
+    if layout == 'csc' and len(o) and len(s):
+        t.data(s[0], 'sample')       # a per-sample read leaves the matrix column-compressed
     return t, M(o, s, D, omd, smd, 'OTU table' if which == 0 else None)
 
 
@@ -82,13 +84,17 @@ def check(case, acc, tmp):
         invs = [case['inv0'], case.get('inv1'), inv2][:k]
         for mdname, mdcfg in MDCFG.items():
             for order in (itertools.permutations(range(k)) if mdname == 'none' else [tuple(range(k))]):
-                for entry in (('Table.concat', 'biom.concat') + (('single',) if k == 2 else ())):
-                    if k == 1 and entry == 'biom.concat' and False:
-                        continue
-                    tabs = [mk(POOLS[i], invs[i], i, mdcfg[i][0], mdcfg[i][1], axis) for i in order]
+                for entry in (('Table.concat', 'biom.concat', 'Table.concat:csc') + (('single',) if k == 2 else ())):
+                    lay = 'csr'
+                    if entry.endswith(':csc'):
+                        # the same operands after each was read per sample (column-compressed storage)
+                        if mdname != 'none' or order != tuple(range(k)):
+                            continue
+                        entry, lay = 'Table.concat', 'csc'
+                    tabs = [mk(POOLS[i], invs[i], i, mdcfg[i][0], mdcfg[i][1], axis, lay) for i in order]
                     reals = [t for t, _ in tabs]
                     mods = [m for _, m in tabs]
-                    kw = dict(inv2=inv2, md=mdname, order=list(order), entry=entry)
+                    kw = dict(inv2=inv2, md=mdname, order=list(order), entry=entry, layout=lay)
                     acc.trans += 1
                     try:
                         if entry == 'Table.concat':
@@ -202,8 +208,8 @@ def run(run):
     vacuity(run, ['clause:result', 'clause:non-disjoint-refused', 'clause:non-disjoint-refused:k3:all-ignore',
                   'clause:non-disjoint-refused:k2:default', 'entry:Table.concat', 'entry:biom.concat',
                   'entry:single'])
-    if not run.quick:
-        hash_seed_reruns(run, (1, 2))
+    # iteration order of id sets is an environment choice: the enumeration is repeated under other hash seeds
+    hash_seed_reruns(run, (1, 2) if run.quick else (1, 2, 3, 4, 5))
     run.assumptions.append('other-axis order and other-axis metadata of the result are not part of the '
                            'property (id set compared, metadata on the concatenated axis only)')
 
